@@ -65,6 +65,36 @@ func (c Config) N(quick, thorough int) int {
 	return quick
 }
 
+// ReplayCase returns the case seed recorded in the replay file, if this run is
+// a replay of a single recorded case.
+func (c Config) ReplayCase() (int64, bool) {
+	if c.ReplayOf == "" {
+		return 0, false
+	}
+	b, err := os.ReadFile(c.ReplayOf)
+	if err != nil {
+		return 0, false
+	}
+	var doc struct {
+		Witness struct {
+			CaseSeed *int64 `json:"case_seed"`
+		} `json:"witness"`
+	}
+	if json.Unmarshal(b, &doc) != nil || doc.Witness.CaseSeed == nil {
+		return 0, false
+	}
+	return *doc.Witness.CaseSeed, true
+}
+
+// Want says whether case i (with the given case seed) is to be run by this
+// process: its shard's share normally, exactly the recorded case in a replay.
+func (c Config) Want(i int, seed int64) bool {
+	if rs, ok := c.ReplayCase(); ok {
+		return seed == rs
+	}
+	return c.Mine(i)
+}
+
 // Mine says whether case index i belongs to this shard.
 func (c Config) Mine(i int) bool { return i%c.NShards == c.Shard }
 
